@@ -624,3 +624,56 @@ def eas_case(ctx, case):
         return
     for r in range(actions.shape[0]):
         ctx.nontrivial_case(dict(a=actions[r].tolist(), e=name, s=seed, eas=it))
+
+
+def deepaco_case(ctx, case):
+    """DeepACOPolicy in its training phase (multi-start sampling with n_ants starts, outputs regrouped per instance):
+    log_likelihood[b, a] must be the log-likelihood of the action sequence returned for ant a of instance b (row a*B + b of
+    the start-major rollout), i.e. what evaluating that sequence on that instance gives (forced first move: zero)."""
+    from rl4co.models.common.constructive.nonautoregressive import NonAutoregressivePolicy
+    from rl4co.utils.ops import batchify
+
+    name, n, B, K, seed = case["env"], case["n"], case["B"], case["ants"], case["s"]
+    env, O, cfg = policies.env_for(name, n)
+    pol = policies.make("deepaco", env, seed=case.get("wseed", 0), n_ants=K)
+    pol.train()
+    torch.manual_seed(seed)
+    td0 = env.reset(env.generator(batch_size=[B]))
+    sig = dict(policy="deepaco", env=name, decode="train_multistart_sampling")
+    wit = dict(B=B, n=n, ants=K)
+    with torch.no_grad():
+        try:
+            out = pol(td0.clone(), env, phase="train", return_actions=True)
+        except Exception as e:
+            ctx.evaluation()
+            ctx.violation(dict(sig, q="forward_raises", exc=type(e).__name__), f"DeepACO train-phase forward raised {type(e).__name__}: {str(e)[:200]}", wit)
+            return
+        ctx.count("c11_forwards")
+        ctx.count("c11_deepaco_forwards")
+        actions, ll, rew = out["actions"], out["log_likelihood"], out["reward"]
+        if actions.shape[0] != B * K or tuple(ll.shape[:2]) != (B, K):
+            ctx.evaluation()
+            ctx.violation(dict(sig, q="shapes"), f"actions {tuple(actions.shape)}, log_likelihood {tuple(ll.shape)} for B={B}, n_ants={K}", wit)
+            return
+        ev = NonAutoregressivePolicy.forward(pol, batchify(td0.clone(), K), env, phase="train", actions=actions, return_actions=True, return_sum_log_likelihood=False)
+    ll_ev = ev["log_likelihood"][:, 1:].double().sum(-1)  # the first move is forced by the start rule: contributes zero
+    ctx.evaluation(B * K)
+    ctx.count("c11_rows_checked", B * K)
+    for b in range(B):
+        for a in range(K):
+            got, want = float(ll[b, a].double().sum()), float(ll_ev[a * B + b])
+            if abs(got - want) > 1e-4 * (1 + abs(want)):
+                ctx.violation(dict(sig, q="ll_vs_evaluate"), f"log_likelihood[{b}, {a}] = {got:.5f}, but the sequence returned for ant {a} of instance {b} has log-likelihood {want:.5f} under the policy", wit)
+                return
+    if not torch.allclose(rew.reshape(-1), ev["reward"].reshape(-1), atol=1e-5, rtol=1e-5):
+        ctx.violation(dict(sig, q="reward_roundtrip"), "evaluate(actions) gives another reward than the train-phase call", wit)
+        return
+    adv = out.get("advantage")
+    if adv is not None:
+        R = rew.reshape(K, B).t().double()
+        if tuple(adv.shape) != (B, K) or bool(((adv.double() - (R - R.mean(1, keepdim=True))).abs() > 1e-4).any()):
+            ctx.violation(dict(sig, q="advantage_layout"), "advantage[b, a] is not reward(ant a of instance b) minus the instance's mean over its ants", wit)
+            return
+    ctx.count("c11_roundtrips")
+    for r in range(actions.shape[0]):
+        ctx.nontrivial_case(dict(a=actions[r].tolist(), e=name, s=seed, K=K))
